@@ -277,6 +277,11 @@ Proof. intros. rewrite regenerated_reveal_is_model. apply (reveal_refines md5 md
 Theorem G_C13_reveal_total : forall t v secret rv,
   exists r, gen_reveal (AHidden t v) secret rv = Val r /\ (forall a, r = Ok a -> attr_type a = t /\ is_hidden a = false).
 Proof. intros. rewrite regenerated_reveal_is_model. apply (reveal_total md5 md5_len). Qed.
+Theorem G_C18_reader_refines_cursor : forall ops d pos r pos', pos <= len d ->
+  c_ops ops d pos = Some (r, pos') ->
+  grun GenSliceReader (rops_prog ops) (dropN pos d) = Val (r, dropN pos' d) /\ pos' <= len d.
+Proof. intros. rewrite regenerated_reader_is_list_reader. apply (reader_refines_cursor ops d pos r pos'); assumption. Qed.
+Print Assumptions G_C18_reader_refines_cursor.
 Print Assumptions regenerated_reader_is_list_reader.
 Print Assumptions G_C11_hide_reveal.
 Print Assumptions G_C12_hide_is_rfc.
@@ -289,8 +294,16 @@ def linked_text(defs):
     need = ['gen_sr_%s' % x[0] for x in SR] + ['gen_reveal', 'gen_hide']
     if any(n not in defs for n in need):
         return None
-    out = HEADER + ('From RL Require Import Spec.SpecEncode Spec.SpecHide Proofs.RoundTrip Proofs.Hiding Proofs.Totality Proofs.ReaderParam.\n')
+    out = HEADER + ('From RL Require Import Model.Ops Spec.SpecCursor Spec.SpecEncode Spec.SpecHide Proofs.RoundTrip Proofs.Hiding Proofs.Totality Proofs.ReaderParam Proofs.Cursor Proofs.Bitmask.\n')
     for n in need:
         out += defs[n]
     out += TIE_REVEAL.replace('Lemma tie :', 'Lemma tie_reveal :') + TIE_HIDE.replace('Lemma tie :', 'Lemma tie_hide :')
-    return out + LINKED_TAIL
+    out += LINKED_TAIL
+    # bitmask AVPs: constructor then accessors, on the regenerated functions (C17)
+    for k in ('FramingCapabilities', 'BearerCapabilities', 'BearerType', 'FramingType'):
+        ns = ['gen_bm_new_' + k, 'gen_bm_first_' + k, 'gen_bm_second_' + k]
+        if all(n in defs for n in ns):
+            out += ''.join(defs[n] for n in ns)
+            out += ('Theorem G_C17_%s : forall x y, match gen_bm_new_%s x y with A32 _ w => gen_bm_first_%s w = x /\\ gen_bm_second_%s w = y | _ => False end.\n'
+                    'Proof. intros x y. destruct x, y; vm_compute; split; reflexivity. Qed.\nPrint Assumptions G_C17_%s.\n' % (k, k, k, k, k))
+    return out
